@@ -122,11 +122,15 @@ def json_close(a, b, path="", exported_ids=None):
     return "" if a == b else "%s: %r vs %r" % (path, a, b)
 
 
-def by_name(flat):
+def by_name(flat, originals=None):
+    """Loaded objects by spec key: a loaded twin has the id of the original it was saved from."""
+    key_by_id = {o.id: k for k, o in (originals or {}).items()}
     out = {}
     for o in flat.values():
-        n = "system" if type(o).__name__ == "System" else o.name
+        n = "system" if type(o).__name__ == "System" else key_by_id.get(o.id, o.name)
         out[n] = o
+        if n != "system":
+            S.register_key(o, n)
     return out
 
 
@@ -177,7 +181,7 @@ def check(case, ctx):
                                                            "builder": "BoaviztaCloudServer" in classes})
         ctx.case(case, nontrivial, labels + ["load_error"])
         return
-    loaded = by_name(flat)
+    loaded = by_name(flat, objs)
     problems = []
     # every reachable original object has a twin
     for n, o in reach.items():
@@ -260,7 +264,7 @@ def check(case, ctx):
             old["Hardware"] = old.pop("Device")
         try:
             cd, fl = json_to_system(old)
-            lo = by_name(fl)
+            lo = by_name(fl, objs)
             d = snap.compare(snap.snapshot(reach), snap.snapshot(S.reachable(dict(lo))))
             if d:
                 problems.append(("version_upgrade", "a version 9 file loads to a different model: %s %s" % (
